@@ -319,6 +319,8 @@ def make_environ(req, log, body=b'', extra=None):
     env['QUERY_STRING'] = req.get('query', '')
     env['wsgi.errors'] = ErrStream(log)
     env['wsgi.input'] = io.BytesIO(body)
+    if req.get('json'):
+        env['HTTP_ACCEPT'] = 'application/json, text/html;q=0.5'
     if req['fw']:
         env['wsgi.file_wrapper'] = wsgiref.util.FileWrapper
     if extra:
@@ -479,7 +481,50 @@ def environ_path(req):
 
 def ser_req(req, urlrepr):
     return [str(req['id']), b01(req['method'] == 'HEAD'), b01(req['fw']), b01(req['path_ok']),
-            hs(environ_path(req)), hs(urlrepr)] + ser_route(req['route'])
+            hs(environ_path(req)), hs(urlrepr), b01(req.get('json'))] + ser_route(req['route'])
+
+
+# --------------------------------------------------------------------------------------
+# JSON error bodies: the model knows them for errors that carry no exception object; a request may
+# ask for JSON only when no part of the program can raise a plain exception
+
+def _eff_may_fail(e):
+    import re
+    if e[0] == 'st':
+        return not 100 <= e[1] <= 999
+    if e[0] == 'sl':
+        return not re.fullmatch(r'\d{3} [^\x00-\x1f\x7f]+', e[1])
+    if e[0] == 'sh':
+        return e[2] in BAD_HVALS
+    return False
+
+
+def _out_exc_free(o):
+    k = o[0]
+    if k in ('f', 't', 'b', 'fl'):
+        return True
+    if k == 'r':
+        return _out_exc_free(o[3])
+    if k == 'it':
+        return all(i[0] in ('e', 't', 'b') or (i[0] in ('y', 'rr') and _out_exc_free(i[1])) for i in o[3])
+    return False
+
+
+def json_safe(spec, req):
+    if spec['errh']:
+        return False
+    for effs, res in spec['before'] + spec['after']:
+        if res[0] == 'ex' or any(_eff_may_fail(e) for e in effs):
+            return False
+        if len(res) > 1 and not _out_exc_free(res[1]):
+            return False
+    route = req['route']
+    if route[0] == 'h':
+        if route[2][0] == 'ex' or any(_eff_may_fail(e) for e in route[1]):
+            return False
+        if len(route[2]) > 1 and not _out_exc_free(route[2][1]):
+            return False
+    return True
 
 
 # --------------------------------------------------------------------------------------
